@@ -284,9 +284,11 @@ def validate_trace(rep, trace_path, cols, nkeys, nvals, label, meta):
     return res
 
 
-def record_and_validate(rep, cols, nkeys, nvals, steps, seed, crash=0, label="", small=False):
+def record_and_validate(rep, cols, nkeys, nvals, steps, seed, crash=0, label="", small=False, cursor=0):
     out = os.path.join(vcore.scratch(), "trace_%s.ndjson" % label)
     args = {"out": out, "cols": json.dumps(cols), "nkeys": nkeys, "nvals": nvals, "steps": steps, "seed": seed}
+    if cursor:
+        args["cursor"] = cursor
     if crash:
         args["crash"] = crash
     if small:
@@ -675,4 +677,47 @@ def c16(tier):
     rep.extra["failure_steps_replayed"] = nfail
     if nfail == 0:
         raise ToolError("no failure step generated: vacuous")
+    return rep.finish()
+
+
+# ---------------------------------------------------------------------------
+# C04: btree columns
+
+C04_COLS = [
+    [{"kind": "btree", "noempty": True}],
+    [{"kind": "btree", "noempty": True, "comp": "lz4", "threshold": 0}],
+    [{"kind": "btree_rc", "noempty": True}],
+]
+
+
+@check("C04")
+def c04(tier):
+    rep = Report("C04", tier)
+    rep.rule = ("TLC: the abstract ordered-map cursor (Start/End/At/Seeked) over the pipeline model: every cursor call sequence "
+                "interleaved with commits and stage steps for the bounded constants; behaviours (seek/first/last/next/prev "
+                "with direction changes, commits and pipeline steps between cursor calls, data spread over commit overlay, "
+                "log overlay and tree) are generated by TLC and replayed through a real BTreeIterator, each returned "
+                "(key, value) compared; non-trivial = behaviour with a cursor open while >= 2 pipeline stages are occupied")
+    rep.assumptions = ["keys are ranks of a sorted seeded universe without the empty key (seek_to_first = rank 0)"]
+    vcore.build_harness()
+    thorough = tier == "thorough"
+    kw = dict(kind="b", nkeys=3, nvals=1, maxcalls=2, maxops=2, fine=False, feat=("cursor", "restart"), view="ViewLogical",
+              invariants=("TypeOK", "ReadLatest", "DrainedIsAll"))
+    run_model(rep, pdb_cfg(**kw), "MC_C04(b,3 keys,2 calls,cursor)", timeout=3400)
+    num = 1500 if thorough else 150
+    ncur = 0
+    for i, cols in enumerate(C04_COLS if thorough else C04_COLS[:2]):
+        behs, results = gen_and_replay(rep, cols, dict(feat=("cursor", "restart"), maxops=3), num, 44, SEED + 41 + i * 7,
+                                       5, 2, small=(i % 2 == 0), label="c04_%d" % i)
+        ncur += sum(1 for b in behs for e in b if e.get("a") in ("CurNext", "CurPrev"))
+    rep.extra["cursor_steps_replayed"] = ncur
+    if ncur == 0:
+        raise ToolError("no cursor step generated: vacuous")
+    # implementation -> spec: long seeded histories over a larger universe (tree of depth >= 2, insert / replace /
+    # remove bursts), iterator kept open across commits and pipeline steps, every result validated by TLC
+    ntr = 6 if thorough else 2
+    for j in range(ntr):
+        cols = [dict(C04_COLS[j % len(C04_COLS)][0])]
+        record_and_validate(rep, cols, 120 if thorough else 60, 3, 2500 if thorough else 900, SEED * 271 + j,
+                            crash=1, label="c04t%d" % j, small=True, cursor=45)
     return rep.finish()
